@@ -111,6 +111,7 @@ mod verif {
         let mut ws = any_ws();
         let np = ws.pending_indexes.len() as u32;
         let wo = ws.writer.write_offset;
+        kani::cover!(np == 2 && ws.sync_tx.value < wo, "reachable: unsynced bytes and two pending index entries");
         assert!(ws.sync().is_ok());
         assert!(wsinv(&ws), "the published watermark never exceeds what is fsynced in the live segment");
         assert!(ws.sync_tx.value == wo && ws.writer.flushed == wo && ws.writer.fsyncs == 1, "after sync everything written is fsynced and released");
@@ -126,6 +127,7 @@ mod verif {
         let old_wo = ws.writer.write_offset;
         let old_sv = ws.sync_tx.value;
         unsafe { DROPPED_FINAL = None; }
+        kani::cover!(old_sv < old_wo && old_wo > 1000, "reachable: rollover with unsynced bytes in a long sealed segment");
         assert!(ws.rollover().is_ok());
         // appenders of the sealed segment hold receivers of the channel that was live when they wrote: whichever channel that is
         // now (the same one, or one dropped by rollover), its value must have reached the sealed segment's end
